@@ -994,6 +994,8 @@ func returnedStruct(fn *ssa.Function) *ssa.Alloc {
 }
 
 // closeWaits inspects a Close method: does it wait, does it cancel, and does cancel come first on all paths.
+var closeWaitsDepth int
+
 func closeWaits(fn *ssa.Function) (waits, cancels, order bool) {
 	var waitIn, cancelIn ssa.Instruction
 	innerOrder := false
@@ -1008,6 +1010,27 @@ func closeWaits(fn *ssa.Function) (waits, cancels, order bool) {
 				waitIn = in
 			}
 			return
+		}
+		// iter.workers.stopAndWait(): a method of a small state type of the package (the cancel function and the WaitGroup
+		// grouped in a struct of their own) - what it does happens here
+		if cal := staticCallee(&call.Call); cal != nil && cal.Blocks != nil && cal != fn && closeWaitsDepth < 3 && cal.Signature.Recv() != nil && rootFn(origin(cal)).Pkg == rootFn(fn).Pkg && fname(cal) != "Close" {
+			closeWaitsDepth++
+			w2, c2, o2 := closeWaits(origin(cal))
+			closeWaitsDepth--
+			if w2 && c2 {
+				if o2 && waitIn == nil {
+					waitIn, cancelIn, innerOrder = in, in, true
+				}
+				return
+			}
+			if w2 {
+				waitIn = in
+				return
+			}
+			if c2 {
+				cancelIn = in
+				return
+			}
 		}
 		// a call of a func-typed field that only ever holds one literal (s.stop(), with stop: func() { cancel(); workers.Wait() }):
 		// what that literal does happens here
